@@ -158,12 +158,10 @@ func (c02) Oracle(c *Case, got []hist.Obs) string {
 						return fmt.Sprintf("output is not gofmt of the raw rendering:\n got  %q\n want %q", o.Out, string(b))
 					}
 				} else {
-					b, err := format.Source([]byte(o.Out))
-					if err != nil {
+					// "parses as Go declarations or statements": format.Source accepts exactly those
+					// fragments (gofmt need not be idempotent on fragments with block comments)
+					if _, err := format.Source([]byte(o.Out)); err != nil {
 						return "fragment render returned nil but the output does not parse: " + err.Error()
-					}
-					if string(b) != o.Out {
-						return "fragment output is not a gofmt fixpoint"
 					}
 				}
 			default:
